@@ -25,7 +25,7 @@ pub static DEF: PropDef = PropDef {
     level: "exploration",
     total: |t| t.pick(128, 6400),
     run,
-    rule: "0..12 machines mixing Pci/Ipv4/Udp/Tcp/Arp/SocketAPI with the built-in applications (SendMessage, Capture, Forward, PingPong, DhcpClient/DhcpServer, ArpRouter) and harness applications that initialise slowly (10..500 ms of simulated time before arriving at the barrier), request shutdown early/late/concurrently with distinct statuses, or never finish; timeouts 0 ms..5 s; paused current_thread runtime (exact times) and multi_thread runtime (order stamps only). A process-wide SeqCst counter stamps: each harness application's arrival at the barrier, every frame entering any network (H4), every delivery to a harness application, every shutdown request. Barrier oracle: no frame and no delivery may be stamped before the last harness arrival (the barrier cannot have released earlier). Status oracle: the returned status is that of a request no other request finished before; TimedOut iff no request was made before the timeout; simulated elapsed <= timeout + 1 s. Non-trivial = >=1 slow initialiser AND >=1 built-in sender in the same run; distinct by configuration hash.",
+    rule: "0..12 machines mixing Pci/Ipv4/Udp/Tcp/Arp/SocketAPI with the built-in applications (SendMessage, Capture, Forward, PingPong, DhcpClient/DhcpServer, ArpRouter) and harness applications that initialise slowly (10..500 ms of simulated time before arriving at the barrier), request shutdown early/late/concurrently with distinct statuses (in a quarter of the runs as a burst: all requesters at one instant, 1..3 requests each), or never finish; timeouts 0 ms..5 s; paused current_thread runtime (exact times) and multi_thread runtime (order stamps only). A process-wide SeqCst counter stamps: each harness application's arrival at the barrier, every frame entering any network (H4), every delivery to a harness application, every shutdown request. Barrier oracle: no frame and no delivery may be stamped before the last harness arrival (the barrier cannot have released earlier). Status oracle: the returned status is that of a request no other request finished before; TimedOut iff no request was made before the timeout; simulated elapsed <= timeout + 1 s. Non-trivial = >=1 slow initialiser AND >=1 built-in sender in the same run; distinct by configuration hash.",
     assumptions: &[
         "requests issued at exactly the same simulated instant, or exactly at the timeout instant, may win in either order",
         "multi-thread runs: a wall-clock watchdog firing is inconclusive; time bounds are not judged there",
@@ -65,7 +65,18 @@ fn scenario(env: &Env, k: u64, case: u64, rng: &mut rand::rngs::SmallRng, d: &mu
     let never: Vec<bool> = (0..n_harness).map(|_| rng.chance(1, 6)).collect();
     let timeout_ms: u64 = *rng.pick(&[0u64, 1, 50, 300, 1000, 5000]);
     let mut reqs: Vec<ShutReq> = vec![];
+    // burst: every requesting application fires at one common instant, each possibly several times in a row,
+    // so that many requests are pending before the run task polls once
+    let burst: Option<u64> = if rng.chance(1, 4) { Some(*rng.pick(&[0u64, 1, timeout_ms.saturating_sub(1), timeout_ms / 2])) } else { None };
     for m in 0..n_harness {
+        if let Some(at) = burst {
+            if rng.chance(3, 4) {
+                for j in 0..rng.gen_range(1..=3u32) {
+                    reqs.push(ShutReq { machine: m, at_ms: at, status: 100 * (j + 1) + m as u32 });
+                }
+            }
+            continue;
+        }
         if rng.chance(1, 2) {
             let at = match rng.gen_range(0..6) {
                 0 => 0,
@@ -301,7 +312,9 @@ fn scenario(env: &Env, k: u64, case: u64, rng: &mut rand::rngs::SmallRng, d: &mu
                 }
                 Some(m) => {
                     // no other request finished before this one started
-                    if let Some(o) = rq.iter().find(|o| o.0 != m.0 && o.2 < m.1 && (multi.is_some() || o.3 < m.3)) {
+                    // (stamps come from one SeqCst counter: "o.2 < m.1" means o's call had returned before m's began,
+                    // also when both happen at the same simulated instant)
+                    if let Some(o) = rq.iter().find(|o| o.0 != m.0 && o.2 < m.1) {
                         d.violation(
                             "later-request-won",
                             format!("the run returned Status({}) requested at {:?}, although Status({}) had been requested completely before it at {:?}", m.0, m.3, o.0, o.3),
